@@ -1,5 +1,6 @@
 #!/bin/bash
 # usage: tools/seed.sh <src-dir with patch.diff demo_test.go README.md> <seed-id> <property> [<more properties to run>...]
+# DEMO_FLAGS=-race runs the demonstration under the race detector (for changes whose only symptom is a data race).
 # Verifies an independently produced breaking change (applies, builds, repository suite green,
 # demonstration fails with it and passes without), runs the named checks against it and stores
 # it under /verif/seeded/<seed-id>/ with meta.json.
@@ -12,10 +13,10 @@ dir=$(head -3 "$src/demo_test.go" | grep -o 'dir: *[a-zA-Z0-9/_.-]*' | head -1 |
 [ -z "$dir" ] && dir="aws-v2/client"
 pkg=$(grep -m1 '^package ' "$src/demo_test.go" | awk '{print $2}')
 cp "$src/demo_test.go" "$scratch/$dir/zz_seeded_demo_test.go"
-clean=$(cd "$scratch" && go test -vet=off -count=1 -timeout 120s ./$dir/ 2>&1 | tail -1)
+clean=$(cd "$scratch" && go test $DEMO_FLAGS -vet=off -count=1 -timeout 300s ./$dir/ 2>&1 | tail -1)
 if ! (cd "$scratch" && patch -p1 -s --no-backup-if-mismatch < "$src/patch.diff" >/dev/null 2>&1); then echo "SEED $id: patch does not apply"; rm -rf "$scratch"; exit 3; fi
 if ! (cd "$scratch" && go build ./... 2>/dev/null); then echo "SEED $id: does not build"; rm -rf "$scratch"; exit 3; fi
-broken=$(cd "$scratch" && go test -vet=off -count=1 -timeout 120s ./$dir/ 2>&1 | tail -1)
+broken=$(cd "$scratch" && go test $DEMO_FLAGS -vet=off -count=1 -timeout 300s ./$dir/ 2>&1 | tail -1)
 rm "$scratch/$dir/zz_seeded_demo_test.go"
 suite=$(cd "$scratch" && go test -vet=off -count=1 -timeout 120s ./... 2>&1 | grep -c "^--- FAIL\|^FAIL\|panic:")
 rm -rf "$scratch"
